@@ -110,6 +110,13 @@ def run(ctx, log):
         if cand[i] not in probe_hit:
             ctx.broken.append(dict(kind="certificate-rejected", target=cand[i][:200],
                                    what="the proved bytecode verifier rejects the code the real compiler produced for this accepted source (no probe fired on the path taken): " + comp[i][:300]))
+    fam = progcheck.deep_recursion_family()
+    fo = vlib.nlh("eval", ["6000000 " + vlib.hexs(s) for s, _ in fam], tag="c02f", timeout=600)
+    for (s, val), o in zip(fam, fo):
+        ctx.seen(s)
+        h = progcheck.head(o)
+        if h not in ("OK i%d" % val, "ERR Type") and not h.startswith("BUDGET"):
+            ctx.violate("a recursion that drives the operand stack to its limit left the machine's memory / computed from a wrapped base pointer", source=s, observed=o[:200], expected="OK i%d or ERR Type" % val)
     sample_n = 500 if ctx.quick else 5000
     pick = list(range(len(run_src)))
     rng.shuffle(pick)
